@@ -34,10 +34,15 @@ func sweep(c *core.Case, family string, v reflect.Value, byPointer bool) {
 	var size int
 	var ref []byte
 	var rerr error
-	if sig, stk := core.Guard(func() { size = proto.Size(x); ref, rerr = proto.Marshal(x) }); sig != "" || rerr != nil {
-		c.Count("skipped.marshal-fails(C03)", 1)
-		_ = stk
+	if sig, _ := core.Guard(func() { size = proto.Size(x) }); sig != "" {
+		c.Count("skipped.size-panics(C03)", 1)
 		return
+	}
+	// Marshal is the byte reference where it works; where it fails (C03 reports that), MarshalTo
+	// is still owed what the statement says about lengths and counts
+	if sig, _ := core.Guard(func() { ref, rerr = proto.Marshal(x) }); sig != "" || rerr != nil {
+		c.Count("marshal-fails(C03).swept-anyway", 1)
+		ref = nil
 	}
 	if size > 700 {
 		c.Count("skipped.too-large", 1)
@@ -84,7 +89,7 @@ func sweep(c *core.Case, family string, v reflect.Value, byPointer bool) {
 			c.Violation(class, "count!=Size", fmt.Sprintf("MarshalTo(len %d) returned %d, Size is %d | %s", L, n, size, show(v)), w)
 			return
 		}
-		if !hasMap {
+		if !hasMap && ref != nil {
 			if !bytes.Equal(b[:n], ref) {
 				c.Violation(class, "bytes!=Marshal", fmt.Sprintf("MarshalTo(len %d) wrote %x, Marshal gives %x | %s", L, b[:n], ref, show(v)), w)
 				return
